@@ -544,12 +544,17 @@ def run(case, env):
         except _refusals(op) as e:
             got = "refuse"
             why = type(e).__name__
+        with_ = ""
+        if m.flags:
+            # the step met the precondition of a listed defect: name it
+            with_ = "-with-" + min(m.flags, key=lambda f: (
+                FLAG_ORDER.index(f) if f in FLAG_ORDER else 99, f))
         if exp == "refuse":
-            check(got == "refuse", "C09/inapplicable-%s-accepted" % op,
-                  {"step": [i, s]})
+            check(got == "refuse", "C09/inapplicable-%s-accepted%s" % (
+                op, with_), {"step": [i, s]})
             refused += 1
         else:
-            check(got == "ok", "C09/applicable-%s-refused" % op,
+            check(got == "ok", "C09/applicable-%s-refused%s" % (op, with_),
                   {"step": [i, s], "error": why if got != "ok" else None})
         if op == "revert" and s[1] is None:
             # what a full revert leaves behind unversioned (backups, .moved)
@@ -568,11 +573,7 @@ def run(case, env):
                                    for p in set(fs) | set(expfs)
                                    if fs.get(p) != expfs.get(p)}})
         obs = observe(wt)
-        sfx = op if exp == "ok" else "refused-" + op
-        if m.flags:
-            # the step met the precondition of a listed defect: name it
-            sfx += "-with-" + min(m.flags, key=lambda f: (
-                FLAG_ORDER.index(f) if f in FLAG_ORDER else 99, f))
+        sfx = (op if exp == "ok" else "refused-" + op) + with_
         compare(m, obs, idmap, sfx, [i, s])
         last_obs = obs
         if exp != "ok":
